@@ -886,7 +886,9 @@ fn files_consistent(w: &World, expect_current: bool) -> Vec<(String, String)> {
         }
         walk(&Path::new("repo").join("rsync").join("current"), "", &mut disk);
         if disk != current {
-            v.push(("rsync-tree".into(), "rsync/current differs from the snapshot".into()));
+            let only_d: Vec<_> = disk.keys().filter(|k| !current.contains_key(*k)).collect();
+            let only_s: Vec<_> = current.keys().filter(|k| !disk.contains_key(*k)).collect();
+            v.push(("rsync-tree".into(), format!("rsync/current differs from the snapshot: only on disk {only_d:?}, only in snapshot {only_s:?}")));
         }
     }
     v
@@ -904,27 +906,64 @@ fn publish_one(w: &mut World, name: &str, content: u8) -> Result<(), String> {
 /// write succeed and leave everything consistent.
 fn next_write_ok(w: &mut World, tag: &str) -> Vec<(String, String)> {
     let mut v = Vec::new();
-    if let Err(e) = publish_one(w, &format!("after-{tag}.txt"), 3) {
-        v.push(("later-publish-failed".into(), e.replace('\n', " ")));
+    // first the withdrawal of what the cut write was about: nothing that an
+    // interrupted write staged may survive its withdrawal
+    let o = w.apply(&Op::PubDelta {
+        publisher: "alice".into(),
+        elems: vec![PubEl::Withdraw { uri: uri("alice", "cut.txt"), old: Some(2) }],
+    });
+    if !o.ok {
+        v.push(("later-publish-failed".into(), format!("withdrawing the object of the cut write: {}", o.err.unwrap_or_default().replace('\n', " "))));
         return v;
     }
-    match w.krill.repo_manager().update_rrdp_if_needed() {
-        Ok(_) => {}
-        Err(e) => {
-            v.push(("later-write-failed".into(), format!("the next repository write fails: {}", e.to_string().replace('\n', " "))));
+    let notif = || std::fs::read(Path::new("repo").join("rrdp").join("notification.xml")).unwrap_or_default();
+    let before = notif();
+    if let Err(e) = w.krill.repo_manager().update_rrdp_if_needed() {
+        v.push(("later-write-failed".into(), format!("the next repository write fails: {}", e.to_string().replace('\n', " "))));
+        return v;
+    }
+    // (if the withdrawal cancelled a publication that was still staged,
+    // there is nothing to write and nothing to demand yet)
+    if notif() != before {
+        v.extend(files_consistent(w, true));
+        if !v.is_empty() {
             return v;
         }
     }
-    // a second one, in case the first only half-recovered
-    if let Err(e) = publish_one(w, &format!("after2-{tag}.txt"), 3) {
-        v.push(("later-publish-failed".into(), e.replace('\n', " ")));
-        return v;
-    }
-    if let Err(e) = w.krill.repo_manager().update_rrdp_if_needed() {
-        v.push(("later-write-failed".into(), format!("the second repository write after the cut fails: {}", e.to_string().replace('\n', " "))));
-        return v;
+    // then two more publications and writes, in case the first only
+    // half-recovered
+    for name in [format!("after-{tag}.txt"), format!("after2-{tag}.txt")] {
+        if let Err(e) = publish_one(w, &name, 3) {
+            v.push(("later-publish-failed".into(), e.replace('\n', " ")));
+            return v;
+        }
+        if let Err(e) = w.krill.repo_manager().update_rrdp_if_needed() {
+            v.push(("later-write-failed".into(), format!("a later repository write after the cut fails: {}", e.to_string().replace('\n', " "))));
+            return v;
+        }
     }
     v.extend(files_consistent(w, true));
+    if !v.is_empty() {
+        return v;
+    }
+    // finally a withdrawal of an object that was already there at the cut,
+    // followed by a session reset: serial numbers start again, nothing
+    // staged under an old serial may come back
+    let o = w.apply(&Op::PubDelta {
+        publisher: "alice".into(),
+        elems: vec![PubEl::Withdraw { uri: uri("alice", "p0.txt"), old: Some(1) }],
+    });
+    if o.ok {
+        if let Err(e) = w.krill.repo_manager().update_rrdp_if_needed() {
+            v.push(("later-write-failed".into(), format!("a later repository write after the cut fails: {}", e.to_string().replace('\n', " "))));
+            return v;
+        }
+        if let Err(e) = w.krill.repo_manager().rrdp_session_reset() {
+            v.push(("later-write-failed".into(), format!("a later session reset after the cut fails: {}", e.to_string().replace('\n', " "))));
+            return v;
+        }
+        v.extend(files_consistent(w, true).into_iter().map(|(k, d)| (k, format!("after a later withdrawal and session reset: {d}"))));
+    }
     v
 }
 
